@@ -226,6 +226,11 @@ structure SafeSet (f : Char → Bool) : Prop where
   ne_pct : ∀ {c : Char}, f c = true → c ≠ '%'
   printable : ∀ {c : Char}, f c = true → 0x20 < c.toNat ∧ c.toNat < 0x7f
 
+theorem SafeSet.pct_false {f : Char → Bool} (hf : SafeSet f) : f '%' = false := by
+  cases h : f '%' with
+  | false => rfl
+  | true => exact absurd rfl (hf.ne_pct h)
+
 theorem quoteAlwaysSafe_props {c : Char} (h : quoteAlwaysSafe c = true) :
     c ≠ '%' ∧ 0x20 < c.toNat ∧ c.toNat < 0x7f := by
   simp only [quoteAlwaysSafe, isAsciiAlpha, isAsciiDigit, Bool.or_eq_true, decide_eq_true_eq,
@@ -283,7 +288,11 @@ theorem quoteSafeQ_eq (c : Char) : quoteSafeQ c = (quoteSafe c || c == '+') := b
   · have h' : (c == '+') = false := by simpa using h
     simp [h, h']
 
-theorem quoteTok_eq_by (t : Tok) : quoteTok t = quoteTokBy quoteSafe t := by cases t <;> rfl
+theorem quoteTok_eq_by (t : Tok) : quoteTok t = quoteTokBy quoteSafe t := by
+  cases t with
+  | raw c => rfl
+  | esc h1 h2 => rfl
+  | stray => simp [quoteTok, quoteTokBy]; decide
 
 theorem quoteToks_eq_by (ts : List Tok) : quoteToks ts = quoteToksBy quoteSafe ts := by
   have e : quoteTok = quoteTokBy quoteSafe := funext quoteTok_eq_by
@@ -315,7 +324,8 @@ theorem canon_quoteTokBy {f : Char → Bool} (hf : SafeSet f) {t : Tok} (h : WfT
       obtain ⟨b, _, rfl⟩ := ht'
       exact canon_escOfByte b
   | esc h1 h2 => intro t' ht'; simp [quoteTokBy] at ht'; subst ht'; exact h
-  | stray => intro t' ht'; simp [quoteTokBy] at ht'; subst ht'; exact ⟨by decide, by decide⟩
+  | stray =>
+    intro t' ht'; simp [quoteTokBy, hf.pct_false] at ht'; subst ht'; exact ⟨by decide, by decide⟩
 
 theorem canon_quoteToksBy {f : Char → Bool} (hf : SafeSet f) {ts : List Tok} (h : ∀ t ∈ ts, WfTok t) :
     ∀ t ∈ quoteToksBy f ts, CanonTok t := by
@@ -339,7 +349,11 @@ theorem pct_quoteTokBy (f : Char → Bool) (t : Tok) : pct (quoteTokBy f t) = pc
     · simp [pctTok]
     · simp [pct_map_escOfByte, pctTok]
   | esc h1 h2 => simp [quoteTokBy]
-  | stray => simp [quoteTokBy, pctTok]; decide
+  | stray =>
+    simp only [quoteTokBy]
+    split
+    · simp [pct]
+    · simp [pct, pctTok]; decide
 
 theorem pct_quoteToksBy (f : Char → Bool) (ts : List Tok) : pct (quoteToksBy f ts) = pct ts := by
   induction ts with
@@ -367,7 +381,8 @@ theorem quoteToksBy_quoteTokBy (f : Char → Bool) (t : Tok) :
         simp only [quoteToksBy, List.map_cons, List.flatMap_cons] at ih ⊢
         rw [ih]; simp [escOfByte, quoteTokBy]
   | esc h1 h2 => simp [quoteToksBy, quoteTokBy]
-  | stray => simp [quoteToksBy, quoteTokBy]
+  | stray =>
+    cases hp : f '%' <;> simp [quoteToksBy, quoteTokBy, hp]
 
 theorem quoteToksBy_idem (f : Char → Bool) (ts : List Tok) :
     quoteToksBy f (quoteToksBy f ts) = quoteToksBy f ts := by
@@ -414,8 +429,8 @@ theorem ascii_render_quoteTokBy {f : Char → Bool} (hf : SafeSet f) {t : Tok} (
     · exact (isHexDigit_props h.2).1
   | stray =>
     intro ch hch
-    simp only [quoteTokBy, render_cons, renderTok, render_nil, List.append_nil, List.mem_cons,
-      List.not_mem_nil, or_false] at hch
+    simp only [quoteTokBy, hf.pct_false, Bool.false_eq_true, if_false, render_cons, renderTok,
+      render_nil, List.append_nil, List.mem_cons, List.not_mem_nil, or_false] at hch
     rcases hch with rfl | rfl | rfl <;> decide
 
 theorem ascii_render_quoteTok {t : Tok} (h : WfTok t) :
